@@ -261,6 +261,12 @@ func (c *Ctx) behavModuleG(dir string, methods []BMethod, generic bool, cfg stri
 	if b, err := os.ReadFile(filepath.Join(c.Src, "go.sum")); err == nil {
 		files["go.sum"] = string(b)
 	}
+	if strings.Contains(cfg, "example.com/m/decoy:") {
+		_, df := decoyPackages(nil)
+		for k, v := range df {
+			files[k] = v
+		}
+	}
 	if err := writeFiles(dir, files); err != nil {
 		return "", err
 	}
